@@ -128,7 +128,7 @@ class C09(Property):
         "probe.dump-binary-stream", "probe.dump-path", "probe.dump-enospc",
         "probe.real-file-object",
         "probe.pre-advanced-text-with-late-binary",
-        "probe.byte-order-mark"]
+        "probe.byte-order-mark", "probe.encoding-argument"]
 
     # ---- one load through one entry point
     def load_entry(self, case, entry, knobs, st):
@@ -145,6 +145,8 @@ class C09(Property):
         nchars = len(label) + len(data) // 300 + 200
         if entry in ("path-str", "pathlike", "url"):
             p = iosim.SCRATCH.put(data)
+            if knobs.get("encoding"):
+                kw = dict(kw, encoding=knobs["encoding"])
             if entry == "path-str":
                 fn = lambda: pvl.load(p, **kw)
             elif entry == "pathlike":
@@ -505,6 +507,13 @@ class C09(Property):
             else:
                 if entry == "pathlike" and rng.random() < 0.4:
                     knobs["pathlib"] = False
+                if entry in ("path-str", "pathlike") and label.isascii() \
+                        and rng.random() < 0.3:
+                    # the documented encoding= argument; for an ASCII label
+                    # none of these may change what is loaded
+                    knobs["encoding"] = rng.choice(["utf-8", "latin-1",
+                                                    "ascii"])
+                    out.inc("probe.encoding-argument")
                 out.violations.extend(self.check_load(case, entry, knobs,
                                                       out))
         # dumps of the loaded module
